@@ -9,7 +9,8 @@ TRUSTED_BASE = [
 ]
 
 DIFF_FORMAT = ('case line: "<#expectations> <#lines> <quantifier per expectation: . ? * +> <match matrix row-major, 1 = expectation i matches line j> '
-               '<1 = output ends in newline>|<implementation diff: M<i>:<lines>; matched, U<i>; unmatched, X<lines>; unexpected>|<1 = no differences>|<1 = TestCase::validate Ok>"')
+               '<1 = output ends in newline>|<implementation diff: M<i>:<lines>; matched, U<i>; unmatched, X<lines>; unexpected>|<1 = no differences>|<1 = TestCase::validate Ok>"'
+               '[|<hex expectation lines>;<hex output>  -- real-rules stream: the matrix was measured by calling every expectation on every line]')
 
 
 def diff_streams(tier):
@@ -17,16 +18,19 @@ def diff_streams(tier):
         return [
             dict(name='exhaustive3x3', harness=['diff', 'exh', '3', '3', '{shard}', '{nshards}'], driver='diff'),
             dict(name='random12x20', harness=['diff', 'rand', '12', '20', '24000', '{seed}', '{shard}', '{nshards}'], driver='diff'),
+            dict(name='real-rules-on-repeating-text', harness=['diff', 'text', '16000', '{seed}', '{shard}', '{nshards}'], driver='diff'),
         ]
     if tier == 'extended':
         return [
             dict(name='random6x8', harness=['diff', 'rand', '6', '8', '300000', '{seed}', '{shard}', '{nshards}'], driver='diff'),
             dict(name='random12x20', harness=['diff', 'rand', '12', '20', '300000', '{seed}', '{shard}', '{nshards}'], driver='diff'),
+            dict(name='real-rules-on-repeating-text', harness=['diff', 'text', '160000', '{seed}', '{shard}', '{nshards}'], driver='diff'),
         ]
     return [
         dict(name='exhaustive4x4', harness=['diff', 'exh', '4', '4', '{shard}', '{nshards}'], driver='diff', timeout=3400),
         dict(name='random12x20', harness=['diff', 'rand', '12', '20', '400000', '{seed}', '{shard}', '{nshards}'], driver='diff'),
         dict(name='random30x60', harness=['diff', 'rand', '30', '60', '50000', '{seed}', '{shard}', '{nshards}'], driver='diff'),
+        dict(name='real-rules-on-repeating-text', harness=['diff', 'text', '400000', '{seed}', '{shard}', '{nshards}'], driver='diff'),
     ]
 
 
@@ -499,6 +503,10 @@ def run_one(prop, inp, ctx):
     cfg = PROPS[prop]
     fam = cfg.get('family', 'diff')
     if fam == 'diff':
+        parts = inp.split('|')
+        if len(parts) == 5:   # a case of the real-rules-on-text stream: replay the expectation lines on the output
+            rc, out = ctx['sh']("%s diff textone '%s' | %s diff" % (ctx['SVH'], parts[4], ctx['SVD']))
+            return [l for l in out.split('\n') if l.startswith('CASE')], out
         f = inp.split('|')[0].split(' ')
         rc, out = ctx['sh']('%s diff one %s | %s diff' % (ctx['SVH'], ' '.join("'%s'" % x for x in f[:5]), ctx['SVD']))
         return [l for l in out.split('\n') if l.startswith('CASE')], out
@@ -516,6 +524,8 @@ def minimise(prop, case, ctx):
     if cfg.get('family', 'diff') != 'diff':
         return case
     kind = case['kind']
+    if len(case['input'].split('|')) == 5:
+        return case
 
     def still(inp):
         ls, _ = run_one(prop, inp, ctx)
